@@ -46,7 +46,7 @@ import (
 	"strings"
 )
 
-const version = "panicsites-v6"
+const version = "panicsites-v9"
 
 // packages (directories) whose functions take part in the call graph
 var scopeDirs = []string{
@@ -170,6 +170,7 @@ func main() {
 	repo := flag.String("repo", "/repo", "source tree")
 	out := flag.String("out", "", "output directory (coq/theories/Gen)")
 	force := flag.Bool("force", false, "ignore the input hash")
+	baseline := flag.String("baseline", "", "also write the baseline file (Proofs/HaltSitesBaseline.v) - only when the site table is re-blessed")
 	flag.Parse()
 	if *out == "" {
 		die("missing -out")
@@ -395,6 +396,9 @@ func main() {
 
 	// ---- sites -----------------------------------------------------------------------------------
 	agg := map[[4]string]int{}
+	normOf := map[[4]string]string{}
+	autoOf := map[[4]string][]*autoInfo{} // one entry per occurrence; nil = no need could be computed
+	pkgOf := map[string]string{}          // file -> package directory
 	var reachList []string
 	for k := range reach {
 		reachList = append(reachList, k)
@@ -404,12 +408,23 @@ func main() {
 		x := funcs[k]
 		w := &walker{fset: fset, info: x.info, modPath: modPath}
 		w.walk(x.decl.Body)
+		fc := newFnCtx(x.info, x.decl)
+		pkgOf[x.file] = x.dir
 		name := x.name
 		if x.recv != "" {
 			name = x.recv + "." + x.name
 		}
-		for _, s := range w.sites {
-			agg[[4]string{x.file, name, s[0], s[1]}]++
+		for i, s := range w.sites {
+			k := [4]string{x.file, name, s[0], s[1]}
+			agg[k]++
+			if _, seen := normOf[k]; !seen {
+				normOf[k] = fc.normSite(w, s[0], w.nodes[i])
+			}
+			if s[0] == "index" || s[0] == "lib" {
+				if a := fc.auto(w.nodes[i], w.paths[i]); a != nil || s[0] == "index" {
+					autoOf[k] = append(autoOf[k], a)
+				}
+			}
 		}
 	}
 	var sites []site
@@ -450,6 +465,122 @@ func main() {
 		fmt.Fprintf(&b, "  (%s, %s, %s, %s, %d%%N)%s\n", q(s.File), q(s.Func), q(s.Kind), q(s.Text), s.Count, sep)
 	}
 	fmt.Fprintf(&b, "].\n")
+	fname := func(k string) (string, string) {
+		x := funcs[k]
+		name := x.name
+		if x.recv != "" {
+			name = x.recv + "." + x.name
+		}
+		return x.file, name
+	}
+	// normalised expressions
+	fmt.Fprintf(&b, "\n(* site (file, function, kind, expression) -> (package directory, NORMALISED expression: receiver = $r, single-definition pure locals substituted) *)\n")
+	fmt.Fprintf(&b, "Definition site_norm : list (string * string * string * string * (string * string)) := [\n")
+	for i, st := range sites {
+		sep := ";"
+		if i == len(sites)-1 {
+			sep = ""
+		}
+		k := [4]string{st.File, st.Func, st.Kind, st.Text}
+		fmt.Fprintf(&b, "  (%s, %s, %s, %s, (%s, %s))%s\n", q(st.File), q(st.Func), q(st.Kind), q(st.Text), q(pkgOf[st.File]), q(normOf[k]), sep)
+	}
+	fmt.Fprintf(&b, "].\n")
+	// auto-discharge information of index / slice sites
+	fmt.Fprintf(&b, "\n(* index / slice sites over a local slice or string: per occurrence for which it could be computed, the lower bound on\n   len(X) the expression needs and the facts the enclosing control flow establishes: (0, k) = len(X) >= k, (1, c) = len(X) mod c = 0 *)\n")
+	fmt.Fprintf(&b, "Definition site_auto : list (string * string * string * string * list (N * list (N * N))) := [")
+	first := true
+	for _, st := range sites {
+		k := [4]string{st.File, st.Func, st.Kind, st.Text}
+		var ents []string
+		for _, a := range autoOf[k] {
+			if a == nil {
+				continue
+			}
+			var fs []string
+			for _, f := range a.facts {
+				fs = append(fs, fmt.Sprintf("(%d%%N, %d%%N)", f[0], f[1]))
+			}
+			ents = append(ents, fmt.Sprintf("(%d%%N, [%s])", a.need, strings.Join(fs, "; ")))
+		}
+		if len(ents) == 0 {
+			continue
+		}
+		if !first {
+			b.WriteString(";")
+		}
+		first = false
+		fmt.Fprintf(&b, "\n  (%s, %s, %s, %s, [%s])", q(st.File), q(st.Func), q(st.Kind), q(st.Text), strings.Join(ents, "; "))
+	}
+	fmt.Fprintf(&b, "\n].\n")
+	// direct callers among the reachable functions
+	callers := map[string][]string{}
+	for _, k := range reachList {
+		for c := range funcs[k].calls {
+			if reach[c] {
+				callers[c] = append(callers[c], k)
+			}
+		}
+	}
+	fmt.Fprintf(&b, "\n(* reachable function -> its direct callers among the reachable functions *)\n")
+	fmt.Fprintf(&b, "Definition function_callers : list (string * string * list (string * string)) := [\n")
+	for i, k := range reachList {
+		cs := callers[k]
+		sort.Strings(cs)
+		var l []string
+		for _, c := range cs {
+			f, n := fname(c)
+			l = append(l, fmt.Sprintf("(%s, %s)", q(f), q(n)))
+		}
+		sep := ";"
+		if i == len(reachList)-1 {
+			sep = ""
+		}
+		f, n := fname(k)
+		fmt.Fprintf(&b, "  (%s, %s, [%s])%s\n", q(f), q(n), strings.Join(l, "; "), sep)
+	}
+	fmt.Fprintf(&b, "].\n")
+	if *baseline != "" {
+		var bb bytes.Buffer
+		fmt.Fprintf(&bb, "(** BASELINE of the panic-site inventory: the reachable functions and the sites (with their normalised expressions)\n    of the tree the rows of Proofs/HaltSites.v were written against.  Written by\n      go run ./panicsites -repo /repo -out <Gen> -force -baseline <this file>\n    when the table is re-blessed; NOT regenerated by the check. *)\n")
+		fmt.Fprintf(&bb, "From Coq Require Import String List NArith.\nImport ListNotations.\nLocal Open Scope string_scope.\n\n")
+		fmt.Fprintf(&bb, "Definition baseline_functions : list (string * string) := [\n")
+		for i, k := range reachList {
+			f, n := fname(k)
+			sep := ";"
+			if i == len(reachList)-1 {
+				sep = ""
+			}
+			fmt.Fprintf(&bb, "  (%s, %s)%s\n", q(f), q(n), sep)
+		}
+		fmt.Fprintf(&bb, "].\n\nDefinition baseline_sites : list (string * string * string * string * (string * string)) := [\n")
+		for i, st := range sites {
+			sep := ";"
+			if i == len(sites)-1 {
+				sep = ""
+			}
+			k := [4]string{st.File, st.Func, st.Kind, st.Text}
+			fmt.Fprintf(&bb, "  (%s, %s, %s, %s, (%s, %s))%s\n", q(st.File), q(st.Func), q(st.Kind), q(st.Text), q(pkgOf[st.File]), q(normOf[k]), sep)
+		}
+		fmt.Fprintf(&bb, "].\n\n(* baseline function -> its direct callers among the baseline functions *)\nDefinition baseline_callers : list (string * string * list (string * string)) := [\n")
+		for i, k := range reachList {
+			cs := callers[k]
+			var l []string
+			for _, c := range cs {
+				f, n := fname(c)
+				l = append(l, fmt.Sprintf("(%s, %s)", q(f), q(n)))
+			}
+			sep := ";"
+			if i == len(reachList)-1 {
+				sep = ""
+			}
+			f, n := fname(k)
+			fmt.Fprintf(&bb, "  (%s, %s, [%s])%s\n", q(f), q(n), strings.Join(l, "; "), sep)
+		}
+		fmt.Fprintf(&bb, "].\n")
+		if err := os.WriteFile(*baseline, bb.Bytes(), 0o644); err != nil {
+			die("%v", err)
+		}
+	}
 	if err := os.MkdirAll(*out, 0o755); err != nil {
 		die("%v", err)
 	}
@@ -494,6 +625,9 @@ type walker struct {
 	info     *types.Info
 	modPath  string
 	sites    [][2]string
+	nodes    []ast.Node   // the node of every site
+	paths    [][]ast.Node // its ancestors inside the function body (outermost first)
+	stack    []ast.Node
 	okAssert map[*ast.TypeAssertExpr]bool
 }
 
@@ -509,7 +643,15 @@ func (w *walker) text(n ast.Node) string {
 	return s
 }
 
-func (w *walker) add(kind string, n ast.Node) { w.sites = append(w.sites, [2]string{kind, w.text(n)}) }
+func (w *walker) add(kind string, n ast.Node) {
+	w.sites = append(w.sites, [2]string{kind, w.text(n)})
+	w.nodes = append(w.nodes, n)
+	anc := append([]ast.Node{}, w.stack...)
+	if len(anc) > 0 && anc[len(anc)-1] == n {
+		anc = anc[:len(anc)-1]
+	}
+	w.paths = append(w.paths, anc)
+}
 
 func isInteger(t types.Type) bool {
 	if t == nil {
@@ -575,6 +717,11 @@ func (w *walker) walk(body ast.Node) {
 		return true
 	})
 	ast.Inspect(body, func(n ast.Node) bool {
+		if n == nil {
+			w.stack = w.stack[:len(w.stack)-1]
+			return true
+		}
+		w.stack = append(w.stack, n)
 		switch e := n.(type) {
 		case *ast.CallExpr:
 			w.call(e)
